@@ -486,13 +486,17 @@ class PrintNode(visitor.Visitor):
 
     def visit_BinaryOp(self, node):
         right = self.visit(node.right)
-        if node.right.__class__.__name__ == "UnaryOp":
-            # 'a - -1' must not become 'a--1'.
+        if right[:1] in ("-", "+"):
+            # 'a - -1' must not become 'a--1', nor 'a - -b*2' 'a--b*2'.
             right = "(" + right + ")"
         return self.visit(node.left) + node.op + right
 
     def visit_UnaryOp(self, node):
-        return node.op + self.visit(node.node)
+        operand = self.visit(node.node)
+        if node.node.__class__.__name__ == "UnaryOp":
+            # '- -a' must not become '--a'.
+            operand = "(" + operand + ")"
+        return node.op + operand
 
     def visit_ParenExpr(self, node):
         return "(" + self.visit(node.node) + ")"
@@ -571,6 +575,14 @@ class PrintNodeIdentifier(PrintNode):
             return self.param_list(node)
         else:
             return node.name + "()"
+
+    def visit_Constant(self, node):
+        value = node.value
+        if (self.key.startswith("F_") and isinstance(value, str)
+                and len(value) > 1 and value[0] == "0" and value.isdigit()):
+            # Fortran reads 010 as ten, C as eight.
+            return str(int(value, 8))
+        return value
 
 def print_node_identifier(node, symbols, key):
     """Convert node to original string and change identifiers
